@@ -49,8 +49,8 @@ def rule_factor_solve(P):
     for name, side in (("solve_left", "left"), ("solve_right", "right")):
         f = P.func(f"linear.py::WeightedGraph.{name}")
         r.looked_at(f)
-        prods = [n for n in walk_live(f.node) if isinstance(n, ast.AugAssign) and isinstance(n.op, ast.Add) and isinstance(n.value, ast.BinOp)
-                 and isinstance(n.value.op, ast.Mult)]
+        prods = [n for n in walk_live(f.node) if isinstance(n, ast.AugAssign) and isinstance(n.op, ast.Add)
+                 and isinstance(W.canon_ast(f.node, n.value, n), ast.BinOp) and isinstance(W.canon_ast(f.node, n.value, n).op, ast.Mult)]
         if len(prods) != 2:
             raise AnalysisError(f"{f.qual}: expected two accumulating products, found {len(prods)}")
         for n in prods:
@@ -69,9 +69,9 @@ def rule_factor_solve(P):
                                              "and for components with an asymmetric closure)"),
                   slots=dict(factors=[norm(x) for x in fs], target=norm(n.target)))
         # b enters once per node of the block
-        bs = [n for n in walk_live(f.node) if isinstance(n, ast.AugAssign) and isinstance(n.op, ast.Add) and isinstance(n.value, ast.Subscript)
-              and W.is_name(n.value.value, f.params[1])]
-        ok = len(bs) == 1 and _idx(bs[0].target) == _idx(bs[0].value)
+        bs = [n for n in walk_live(f.node) if isinstance(n, ast.AugAssign) and isinstance(n.op, ast.Add) and isinstance(W.canon_ast(f.node, n.value, n), ast.Subscript)
+              and W.is_name(W.canon_ast(f.node, n.value, n).value, f.params[1])]
+        ok = len(bs) == 1 and _idx(bs[0].target) == _idx(W.canon_ast(f.node, bs[0].value, bs[0]))
         r.add(f, bs[0] if bs else f.node, ok, "" if ok else f"the right-hand side {f.params[1]}[j] must enter each node j exactly once")
     c = P.func("linear.py::WeightedGraph._closure")
     r.looked_at(c)
